@@ -130,6 +130,7 @@ func genC02(c *Ctx) {
 	r := c.R
 	// histories on one caching hasher over chains at the depth limit (c02b.go)
 	genC02Chains(c)
+	genC02OneShot(c) // one-shot entry points, writes, failing calls (c02_r8.go)
 	n := c.Scale(700, 12000)
 	for i := 0; i < n; i++ {
 		size := 1 + r.Intn(14)
